@@ -23,5 +23,6 @@ def run(rep):
     R.row_index_provenance(rep)
     R.cache_fill_provenance(rep)
     R.template_agreement(rep)
+    R.one_append_per_column(rep)
     rep.floor("row-index-provenance", 5)
     rep.floor("template-agreement", 8)
